@@ -56,6 +56,9 @@ def decFn (j : Json) : R Fn := do
     items := ← (← fldArr j "items").toList.mapM decItem
     fails := ← optStr j "fails"
     usesExt := ← fldBool j "uses_ext"
+    ws := match j.getObjVal? "ws" with
+      | .ok (.bool b) => some b
+      | _ => none
   }
 where
   decPairSS' (j : Json) : R (String × String) := do
